@@ -448,6 +448,59 @@ def keyCtorCfg : Option KCfg :=
   | none => none
   | some srcs => some ⟨srcs, .absent, false⟩
 
+/-! ## several instances on the path of one request (round 5)
+
+`e.Use(BasicAuth(outer))` plus a group- or route-level `BasicAuth(inner)`, KeyAuth behind BasicAuth
+on the same `Authorization` header, KeyAuth twice: echo runs them outermost first, an instance that
+does not call `next` ends the request.  Every instance reads THE REQUEST AS IT WAS SENT — no
+instance consumes, rewrites or removes the credentials another one is going to look at — so in the
+model each layer is evaluated on the located data of the original request and the stack is the
+conjunction of the layers. -/
+
+/-- what one instance did -/
+structure LObs where
+  ran : Bool
+  status : Nat
+  www : Str                    -- WWW-Authenticate value it set ([] = none)
+  ehClass : Nat                -- KeyAuth: class of the error its ErrorHandler saw (0 = not called)
+  calls : List (Str × Str)     -- validator call log (KeyAuth: (key, []))
+deriving DecidableEq, Repr, Inhabited
+
+inductive ALayer where
+  | basic (skip : Bool) (realm quoted : Str) (V : Str → Str → Outcome) (hdrs : List Str)
+  | key (skip : Bool) (V : Str → Outcome) (cfg : KCfg) (data : List (List (Str × Str)))
+
+/-- one instance on the request, on its own; `none` = panic -/
+def ALayer.run (dec : Str → Option Str) : ALayer → Option LObs
+  | .basic skip realm quoted V hdrs =>
+    match basicAuthMW skip V dec hdrs with
+    | none => none
+    | some o => some ⟨o.ran, o.status, if o.www then wwwValue realm quoted else [], 0, o.calls⟩
+  | .key skip V cfg data =>
+    match keyAuthMW skip V cfg data with
+    | none => none
+    | some o => some ⟨o.ran, o.status, [], o.ehClass, o.calls.map fun k => (k, [])⟩
+
+structure SObs where
+  ran : Bool
+  status : Nat
+  www : Str
+  layers : List (Nat × List (Str × Str))   -- per instance: ehClass and call log (not reached: 0, [])
+deriving DecidableEq, Repr, Inhabited
+
+/-- one request through a stack of instances (outermost first) in front of a handler answering 200 -/
+def authStack (dec : Str → Option Str) : List ALayer → Option SObs
+  | [] => some ⟨true, 200, [], []⟩
+  | l :: rest =>
+    match l.run dec with
+    | none => none
+    | some o =>
+      if o.ran then
+        match authStack dec rest with
+        | none => none
+        | some r => some { r with layers := (o.ehClass, o.calls) :: r.layers }
+      else some ⟨false, o.status, o.www, (o.ehClass, o.calls) :: rest.map fun _ => (0, [])⟩
+
 /-! ## wire -/
 open Wire
 
@@ -480,33 +533,75 @@ inductive Op where
   | key (ctor : Nat) (skip : Bool) (lookups scheme : Str) (eh : EH) (cont : Bool)
         (data : List (List (Str × Str))) (dflt : Outcome) (tbl : List (Str × Outcome))
   | extractors (lookups : Str) (data : List (List (Str × Str)))
+  | stack (layers : List Op)
+
+def pBasicBody : P Op := do
+  let ctor ← nat
+  let skip ← bool
+  let realm ← str
+  let quoted ← str
+  let hdrs ← list str
+  let dflt ← pOutcome
+  let tbl ← list (do let k ← pPair; let o ← pOutcome; pure (k, o))
+  pure (.basic ctor skip realm quoted hdrs dflt tbl)
+
+def pKeyBody : P Op := do
+  let ctor ← nat
+  let skip ← bool
+  let lookups ← str
+  let scheme ← str
+  let eh ← pEH
+  let cont ← bool
+  let data ← list (list pPair)
+  let dflt ← pOutcome
+  let tbl ← list (do let k ← str; let o ← pOutcome; pure (k, o))
+  pure (.key ctor skip lookups scheme eh cont data dflt tbl)
+
+/-- one instance of a stack: `0 <basic body>` or `1 <key body>` -/
+def pLayerOp : P Op := do
+  let mode ← nat
+  if mode = 0 then pBasicBody else pKeyBody
 
 def pOp : P Op := do
   let mode ← nat
-  if mode = 0 then
-    let ctor ← nat
-    let skip ← bool
-    let realm ← str
-    let quoted ← str
-    let hdrs ← list str
-    let dflt ← pOutcome
-    let tbl ← list (do let k ← pPair; let o ← pOutcome; pure (k, o))
-    pure (.basic ctor skip realm quoted hdrs dflt tbl)
-  else if mode = 1 then
-    let ctor ← nat
-    let skip ← bool
-    let lookups ← str
-    let scheme ← str
-    let eh ← pEH
-    let cont ← bool
-    let data ← list (list pPair)
-    let dflt ← pOutcome
-    let tbl ← list (do let k ← str; let o ← pOutcome; pure (k, o))
-    pure (.key ctor skip lookups scheme eh cont data dflt tbl)
-  else
+  if mode = 0 then pBasicBody
+  else if mode = 1 then pKeyBody
+  else if mode = 2 then
     let lookups ← str
     let data ← list (list pPair)
     pure (.extractors lookups data)
+  else
+    let layers ← list pLayerOp
+    pure (.stack layers)
+
+/-- the key configuration an op describes; `none` = the constructor panics -/
+def keyCfgOf (ctor : Nat) (lookups scheme : Str) (eh : EH) (cont : Bool) : Option KCfg :=
+  if ctor ≥ 2 then none
+  else if ctor = 1 then keyCtorCfg
+  else match parseLookups lookups scheme with
+    | none => none
+    | some srcs => some ⟨srcs, eh, cont⟩
+
+/-- `none` = some constructor panics (or the op is not a layer) -/
+def layersOf : List Op → Option (List ALayer)
+  | [] => some []
+  | op :: rest =>
+    match layersOf rest with
+    | none => none
+    | some ls =>
+      match op with
+      | .basic ctor skip realm quoted hdrs dflt tbl =>
+        if ctor ≥ 2 then none
+        else some (.basic skip (if ctor = 1 then [] else realm) quoted (lookup2 dflt tbl) hdrs :: ls)
+      | .key ctor skip lookups scheme eh cont data dflt tbl =>
+        match keyCfgOf ctor lookups scheme eh cont with
+        | none => none
+        | some cfg => if cfg.sources.length ≠ data.length then none else some (.key skip (lookup1 dflt tbl) cfg data :: ls)
+      | _ => none
+
+def encSObs (o : SObs) : String :=
+  render ([encBool o.ran, toString o.status] ++
+    encList (fun l => toString l.1 :: encList (fun c => [encStr c.1, encStr c.2]) l.2) o.layers ++ [encStr o.www])
 
 def encBObs (o : BObs) : String :=
   render ([encBool o.ran, toString o.status, encBool o.www] ++
@@ -536,7 +631,10 @@ def encExts : List Ext → Option (List String)
     key:   `1 ctor skip lookups scheme eh cont nsrc (npairs (name value)*)* dflt ntbl (key outcome)*`
            →  `ran status ehClass ncalls key*`;  `panic` / `config-panic` otherwise
     extractors (exported `CreateExtractors(lookups)`, each extractor applied to the request):
-           `2 lookups nsrc (npairs (name value)*)*`  →  `n (0 | 1 nkeys key*)*` / `config-error` -/
+           `2 lookups nsrc (npairs (name value)*)*`  →  `n (0 | 1 nkeys key*)*` / `config-error`
+    stack (several instances on one request, outermost first; each with what net/http locates in the
+           request AS SENT): `3 n (0 <basic body> | 1 <key body>)*`
+           →  `ran status n (ehClass ncalls (u p)*)* wwwValue` / `panic` / `config-panic` -/
 def runLine (line : String) : String :=
   match parseLine pOp line with
   | none => "bad-op"
@@ -570,5 +668,12 @@ def runLine (line : String) : String :=
       else match encExts ((srcs.zip data).map fun sd => extract sd.1 sd.2) with
         | none => "panic"
         | some toks => render (toString srcs.length :: toks)
+  | some (.stack ops) =>
+    match layersOf ops with
+    | none => "config-panic"
+    | some ls =>
+      match authStack b64decode ls with
+      | none => "panic"
+      | some o => encSObs o
 
 end C13
